@@ -25,13 +25,15 @@ def named_fn(arg, f, hook=None, tag=None):
         def fn(b): return call(b)
     elif arg == "m":
         def fn(m): return call(m)
+    elif arg == "x":
+        def fn(x): return call(x)
     else:
         raise ValueError(arg)
     return fn
 
 
 GRAPHS = ["lin_s", "lin_d_s", "gmrf_d_s", "lmrf_d", "two_lik", "nonlin", "xz_s", "laplace_b", "mean_m", "cmrf_d",
-          "lognormal", "lognormal_cov_s", "lin_sqrtprecF"]   # ("reg_s" is buildable but RegularizedGaussian has no log-density: not a C01/C11 graph)
+          "lognormal", "lognormal_cov_s", "lin_sqrtprecF", "reg_d", "lin_geom", "sigdep_x"]   # ("reg_s" is buildable but RegularizedGaussian has no log-density: not a C01/C11 graph)
 
 
 def build(rec, hook=None):
@@ -146,6 +148,36 @@ def build(rec, hook=None):
         dens = [y, x, s]
         vals = {"y": ydata, "x": np.exp(xval * 0.3), "s": pos()}
         out["models"]["A"] = M
+    elif g == "reg_d":
+        # implicit (regularised) prior with a hyper-parameter: it has no log-density of its own (NaN), but conditioning,
+        # names, conditioning variables and sampling refusal still have to behave
+        d = Gamma(1.0, 0.1, name="d")
+        x = RegularizedGaussian(np.zeros(n), prec=idt("d", "x.prec"), constraint="nonnegativity", name="x")
+        M = LinearModel(A)
+        y = Gaussian(M(x), 0.3, name="y")
+        dens = [y, x, d]
+        vals = {"y": ydata, "x": np.abs(xval), "d": pos()}
+        out["models"]["A"] = M
+    elif g == "lin_geom":
+        # explicit, non-default geometries: the model's domain geometry and the prior's geometry are equal but
+        # distinct objects
+        from cuqi.geometry import Continuous1D
+        s = Gamma(1.0, 0.1, name="s")
+        x = Gaussian(np.zeros(n), 0.8, geometry=Continuous1D(np.linspace(0, 1, n)), name="x")
+        M = LinearModel(A, domain_geometry=Continuous1D(np.linspace(0, 1, n)), range_geometry=Continuous1D(np.linspace(0, 1, m)))
+        y = Gaussian(M(x), cov=inv("s", "y.cov"), name="y")
+        dens = [y, x, s]
+        vals = {"y": ydata, "x": xval, "s": pos()}
+        out["models"]["A"] = M
+    elif g == "sigdep_x":
+        # signal-dependent noise: the SAME variable feeds two callables (mean and covariance) of one density
+        d = Gamma(1.0, 0.1, name="d")
+        x = Gaussian(np.zeros(n), prec=idt("d", "x.prec"), name="x")
+        y = Gaussian(named_fn("x", lambda v: A @ v, hook, "y.mean"),
+                     cov=named_fn("x", lambda v: 0.2 + 0.05 * float(np.asarray(v) @ np.asarray(v)), hook, "y.cov"),
+                     name="y", geometry=m)
+        dens = [y, x, d]
+        vals = {"y": ydata, "x": xval, "d": pos()}
     elif g == "lognormal_cov_s":
         s = Gamma(2.0, 1.0, name="s")
         x = Lognormal(np.zeros(n), named_fn("s", lambda v: v * np.eye(n), hook, "x.cov"), name="x")
